@@ -140,7 +140,7 @@ class Fragment:
         collector(self)
 
         new_domains = []
-        for domain_name in collector.used_domains - collector.defined_domains:
+        for domain_name in sorted(collector.used_domains - collector.defined_domains):
             if domain_name == "comb":
                 continue
             value = missing_domain(domain_name)
